@@ -278,7 +278,7 @@ def pass_unit(fwd):
             same = lambda t: And(h1.start[t] == h0.start[t], h1.end[t] == h0.end[t], h1.est[t] == h0.est[t], h1.spent[t] == h0.spent[t])
             x_ = Int('x_')
             out = {'in-calculated': mem_i(cl1, h0.tid[task]),
-                   'calculated-grows': ForAll([x_], Implies(mem_i(cl0, x_), mem_i(cl1, x_)), patterns=[mem_i(cl0, x_)]),
+                   'calculated-grows': ForAll([x_], Implies(mem_i(cl0, x_), mem_i(cl1, x_)), patterns=[mem_i(cl0, x_), mem_i(cl1, x_)]),
                    'C03/ledger': And(LedInv(L1, b), wf(L1)),
                    'C06/frame-calculated-tasks-keep-their-fields': ForAll([t_], Implies(And(t_ != null, mem_i(cl0, h0.tid[t_])), same(t_)), patterns=[mem_i(cl0, h0.tid[t_])]),
                    'C06/frame-higher-rank-untouched': ForAll([t_], Implies(And(t_ != null, rank(t_) > rank(task)), And(same(t_), mem_i(cl1, h0.tid[t_]) == mem_i(cl0, h0.tid[t_]), work(L1, t_) == work(L0, t_))), patterns=[rank(t_)]),
@@ -423,7 +423,7 @@ def pass_unit(fwd):
             x_ = Int('x_')
             d = {('sched/' + k): v for k, v in SchedInv(h, cl, L, fwd, bound(eng, c.st, me)).items()}
             d.update({'ledger': And(LedInv(L, bal(eng, c.st, me)), wf(L)),
-                      'calc-grows': ForAll([x_], Implies(mem_i(cl0, x_), mem_i(cl, x_)), patterns=[mem_i(cl0, x_)]),
+                      'calc-grows': ForAll([x_], Implies(mem_i(cl0, x_), mem_i(cl, x_)), patterns=[mem_i(cl0, x_), mem_i(cl, x_)]),
                       'frame-done': ForAll([t_], Implies(And(t_ != null, mem_i(cl0, h0.tid[t_])), same(t_)), patterns=[mem_i(cl0, h0.tid[t_])]),
                       'frame-rank': ForAll([t_], Implies(And(t_ != null, rank(t_) >= rank(task)), And(same(t_), mem_i(cl, h0.tid[t_]) == mem_i(cl0, h0.tid[t_]), work(L, t_) == work(L0, t_))), patterns=[rank(t_)]),
                       'frame-uncalc': ForAll([t_], Implies(And(t_ != null, Not(mem_i(cl, h0.tid[t_]))), same(t_)), patterns=[mem_i(cl, h0.tid[t_])]),
